@@ -108,3 +108,8 @@ mod tests {
         // we have access to an ipv6 network.
     }
 }
+
+// verification hook (guard: cfg(kani)); contract harnesses live outside the repository
+#[cfg(kani)]
+#[path = "/verif/kani/ntp_proto/identifiers.rs"]
+mod verif;
